@@ -356,6 +356,20 @@ func c20Workload(seed int64, fonts *c20Fonts, reps int, sharedPDF bool) []c20Cal
 				return fmt.Sprintf("faux bold %.4f faux italic %.4f", face.FauxBold, face.FauxItalic)
 			})
 		}
+		// faces of styles the shared family has not loaded: faux bold / faux italic are computed per call and
+		// the family must not change by being asked
+		for _, st := range []canvas.FontStyle{canvas.FontBold | canvas.FontItalic, canvas.FontBold, canvas.FontSemiBold} {
+			st := st
+			add("FontFamily.Face(faux)", func() string {
+				face := fonts.family.Face(12, canvas.Black, st, canvas.FontNormal)
+				sub := fonts.family.Face(12, canvas.Black, canvas.FontRegular, canvas.FontSubscript)
+				p, w, err := face.ToPath("faux")
+				if err != nil {
+					return "err:" + err.Error()
+				}
+				return fmt.Sprintf("bold %.4f italic %.4f sub %.4f width %.6f %s", face.FauxBold, face.FauxItalic, sub.FauxBold, w, digestFloats(p.Data()))
+			})
+		}
 		// rendering of distinct canvases
 		for i := 0; i < 4; i++ {
 			i := i
